@@ -493,6 +493,15 @@ func c04Loc(r *Run, l gts.Location, L, n int) {
 	ls := encLoc(l)
 	// the two steps of gts.Rotate on a location
 	m := ((n % L) + L) % L
+	// the property covers ambiguous spans only when they do not cross the new origin
+	for _, u := range leaves(l) {
+		if a, ok := u.(gts.Ambiguous); ok {
+			if (a.Start+m)/L != (a.End-1+m)/L {
+				r.count("rotate/skipped-ambiguous-crossing-origin")
+				return
+			}
+		}
+	}
 	line1 := fmt.Sprintf("loc.expand %s 0 %d", ls, m)
 	o1 := r.op(line1)
 	if o1 == "PANIC" {
@@ -518,6 +527,14 @@ func c04Loc(r *Run, l gts.Location, L, n int) {
 			fullLen = true
 		}
 	}
+	// abutting parts can merge into a full-length range: same treatment
+	uniq := map[int]bool{}
+	for _, p := range want {
+		uniq[p.x] = true
+	}
+	if len(uniq) == L {
+		fullLen = true
+	}
 	if fullLen {
 		// "a full-length feature stays full-length": it is re-based to 0..L, so only the
 		// set of residues (not the reading start) is preserved
@@ -540,15 +557,15 @@ func c04Loc(r *Run, l gts.Location, L, n int) {
 func propC04(r *Run) {
 	L, _, nRandom := scope(r)
 	r.exhaustive = true
-	for _, l := range smallLocs(L, false) {
+	for _, l := range smallLocs(L, true) {
 		for n := -L; n <= 2*L; n++ {
 			c04Loc(r, l, L, n)
 		}
 	}
-	r.notes = append(r.notes, fmt.Sprintf("exhaustive: smallLocs(L=%d, no ambiguous) x n in [-L,2L]", L))
+	r.notes = append(r.notes, fmt.Sprintf("exhaustive: smallLocs(L=%d) x n in [-L,2L] (ambiguous spans crossing the new origin skipped)", L))
 	for t := 0; t < nRandom; t++ {
 		LL := r.rangeL()
-		l := genLoc(r.rng, 3, LL, 5, false)
+		l := genLoc(r.rng, 3, LL, 5, t%3 == 0)
 		n := r.rng.rangeInt(-3*LL, 3*LL)
 		c04Loc(r, l, LL, n)
 		if t < 4 {
@@ -641,13 +658,17 @@ func c05Loc(r *Run, l gts.Location, L int) {
 	// involution (on canonical locations: what Join/Order would build)
 	back := got.Reverse(L)
 	r.op(fmt.Sprintf("loc.reverse %s %d", encLoc(got), L))
-	if !hasBetween(l) && isCanonical(l) && !locEq(back, l) {
+	if !hasBetween(l) && isCanonical(l) && nodup(d) && !locEq(back, l) {
 		r.fail(Failure{Oracle: "reverse: involution on canonical locations", Op: line, Got: encLoc(back), Want: ls, Guard: guard})
 	}
 	// complement involution
 	cc := l.Complement().Complement()
 	r.op("loc.complement " + ls)
-	if !locEq(cc, l) {
+	isCC := false
+	if c1, ok := l.(gts.Complemented); ok {
+		_, isCC = c1.Location.(gts.Complemented)
+	}
+	if !isCC && !locEq(cc, l) {
 		r.fail(Failure{Oracle: "complement: involution", Op: "loc.complement " + ls, Got: encLoc(cc), Want: ls})
 	}
 	// reverse-complement extraction: Locate(compl(reverse l)) on revcomp(seq) == Locate(l) on seq
@@ -822,7 +843,7 @@ func c10Loc(r *Run, l gts.Location, i, n int) {
 		back := mid.Expand(i, -n)
 		d := den(l)
 		r.eval(fmt.Sprintf("%s|%s|%d|%d", first, ls, i, n), len(d) > 0 && n > 0)
-		guard := fmt.Sprintf("k2.expand %s %d %d", encLoc(mid), i, -n)
+		guard := fmt.Sprintf("k2.%s %s %d %d ; k2.expand %s %d %d", first, ls, i, n, encLoc(mid), i, -n)
 		full := fmt.Sprintf("loc.%s %s %d %d ; %s", first, ls, i, n, line)
 		if !sameMeaning(den(back), d) {
 			r.fail(Failure{Oracle: first + ";delete restores every feature's residues", Op: full,
@@ -834,7 +855,7 @@ func c10Loc(r *Run, l gts.Location, i, n int) {
 		if len(d) > 0 && nodup(d) && (lo0 != lo1 || hi0 != hi1) {
 			r.fail(Failure{Oracle: first + ";delete restores the partial markers", Op: full, Got: encLoc(back), Guard: guard})
 		}
-		if isCanonical(l) && !hasAmbiguous(l) && !locEq(back, l) {
+		if isCanonical(l) && !hasAmbiguous(l) && nodup(d) && !locEq(back, l) {
 			r.fail(Failure{Oracle: first + ";delete is the identity on canonical locations (the split join re-merges)", Op: full,
 				Got: encLoc(back), Want: ls, Guard: guard})
 		}
